@@ -163,7 +163,12 @@ def _call_sites(ck: Checker, func: Func) -> list[tuple[Func, ast.Call]]:
     if not _CALLS or ("__digest__" in _CALLS and _CALLS["__digest__"] != ck.prg.digest()):  # type: ignore[comparison-overlap]
         _CALLS.clear()
         _CALLS["__digest__"] = ck.prg.digest()  # type: ignore[assignment]
+        # helpers the reference tree does not have and whose body was copied into their callers: the calls they make are
+        # seen (and have to be justified) at the copy, the helper itself is no call site of its own
+        copied = {getattr(w, "ngosa_inline", None) for f_ in ck.prg.funcs.values() if not isinstance(f_.node, ast.Lambda) for w in ast.walk(f_.node) if isinstance(w, ast.With)} - {None}
         for caller in ck.prg.funcs.values():
+            if caller.qualname in copied:
+                continue
             for call in find_nodes(caller.node, lambda n: isinstance(n, ast.Call)):
                 if isinstance(call.func, ast.Name) and call.func.id in ("partial",) and call.args:  # type: ignore[attr-defined]
                     continue
